@@ -4,7 +4,7 @@ Every case is an edit history on a fresh hdl21.Module / hdl21.Bundle.  The imple
 operation (harness/impl/c18.py); Coq (Corr/C18.v) replays the history through the specification (Spec/Namespace.v)
 and the model (Model/Namespace.v) and returns per case 0 | code + 10*(step+1).
 """
-import json, itertools
+import json, itertools, time
 from . import core
 from .core import cz, cstr, clist, cbool
 
@@ -627,7 +627,7 @@ def world_corpus():
     return jobs
 
 
-def world_exhaustive(ctrs, objs, maxlen):
+def world_exhaustive(ctrs, objs, maxlen, vis_values=(True, False)):
     names = ["a", "b"]
     ops = []
     for c in range(len(ctrs)):
@@ -637,7 +637,7 @@ def world_exhaustive(ctrs, objs, maxlen):
             ops.append(["add", c, x, None])
     for x, (k, _) in enumerate(objs):
         if k in ("sig", "port"):
-            ops += [["vis", x, True], ["vis", x, False]]
+            ops += [["vis", x, v] for v in vis_values]
     jobs = []
     for L in range(1, maxlen + 1):
         for seq in itertools.product(ops, repeat=L):
@@ -720,7 +720,9 @@ def run_world_streams(run, quick, seed, pub_m, pub_b):
 
     def do(stream, jobs, tag, chunk, shrink=True, **extra):
         nonlocal total
+        t0 = time.time()
         jj, oo, res, nf = evaluate_world(tag, jobs, chunk=chunk)
+        extra["wall_s"] = round(time.time() - t0, 1)
         hits = {}
         for j, o in zip(jj, oo):
             for t in world_targets(j, o):
@@ -743,9 +745,11 @@ def run_world_streams(run, quick, seed, pub_m, pub_b):
     for tag, ctrs, objs in (("mm", ["module", "module"], [["sig", None], ["inst", None]]),
                             ("mb", ["module", "bundle"], [["sig", None], ["bun", None]])):
         maxlen = 3 if (quick or tag == "mb") else 4
-        jobs, nops = world_exhaustive(ctrs, objs, maxlen)
+        # the Module + Bundle box of the quick tier leaves `x.vis = INTERNAL` out (objects start internal; the two-Module box has both)
+        vv = (True,) if (quick and tag == "mb") else (True, False)
+        jobs, nops = world_exhaustive(ctrs, objs, maxlen, vv)
         do(f"world-exhaustive-{tag}", jobs, "wexh" + tag, 200, exhaustive=True, ops_per_step=nops, max_length=maxlen,
-           box=f"all sequences of length <= {maxlen} over containers {ctrs}, objects {objs}, names a,b x {{setattr, add(x), x.vis = PORT / INTERNAL}}")
+           box=f"all sequences of length <= {maxlen} over containers {ctrs}, objects {objs}, names a,b x {{setattr, add(x), x.vis = {' / '.join('PORT' if v else 'INTERNAL' for v in vv)}}}")
     n_rand = 1000 if quick else 12000
     maxlen = 10 if quick else 20
     sm = [n for n in ["ports", "signals", "name", "get", "_t"] if n in pub_m or n == "_t"]
